@@ -132,7 +132,7 @@ PROPS = {
         design_ref="DESIGN.md section 4, C13",
     ),
     "C16": S(
-        e.C16 + [e.eng5],
+        e.C16 + [e.eng5, e.eng2, e.eng34],
         explanation="extract_outermost and extract_child consume the same generator function with (stackitem, fresh error list) and extract_outermost returns its first item; in extract_outermost's StopIteration handler every path raises "
                     "(the recorded error, an ExceptionGroup of them, or a new RuntimeError, by count); the package's only Frame(...) construction is preceded by the filter that reduces origin to a generator/coroutine/async generator or None; "
                     "better_origin falls back when the candidate is not weak-referenceable.",
